@@ -69,7 +69,10 @@ Inductive event :=
 | EWaitBegin (timeout : option Q)  (* _sched_cond.wait(timeout) entered *)
 | EWaitEnd (c : cause)             (* ... returned, lock re-acquired *)
 | EPop (t : Q) (k : task)          (* _task_queue.pop() in _run *)
-| EAwakeEnd (k : task) (r : res).  (* task.__awake__ returned / raised *)
+| EAwakeEnd (k : task) (r : res)   (* task.__awake__ returned / raised *)
+| ESchedCall (base d : Q).         (* a thread that is NOT a clock thread (main thread, any other thread) entered
+                                      sched(d): its logical "now" is the physical time [base] read at the call
+                                      (_MainTimeThread._seconds; specification) *)
 
 (* ---- clock thread program counter ------------------------------------------------------ *)
 Inductive pc :=
@@ -83,7 +86,8 @@ Inductive pc :=
 | PReadd (nb : Q) (t : Q) (k : task)   (* numeric return: about to _sched_add(t, k) *)
 | PExited.
 
-Inductive pend := NoPend | OweNotify | InClear | InStop | OweTempo.
+Inductive pend := NoPend | OweNotify | InClear | InStop | OweTempo
+  | OweAdd (tm : Q).   (* sched(d) in progress: _sched_add(tm, .) must follow *)
 
 Record cst := mkC {
   c_kind : kind;
@@ -141,6 +145,11 @@ Definition step (s : cst) (e : event) : option cst :=
   | OweNotify => match e with ENotify SSched => Some (do_notify s) | _ => None end
   | InStop => match e with ENotify SStop => Some (do_notify s) | _ => None end
   | OweTempo => match e with ENotify STempo => Some (do_notify s) | _ => None end
+  | OweAdd tm =>
+      match e with
+      | EAdd t k => if lock_free (c_pc s) && Qeq_bool t tm then Some (do_add s t k (c_pc s)) else None
+      | _ => None
+      end
   | InClear =>
       match e, c_q s with
       | EClearPop t k, h :: r =>
@@ -229,6 +238,9 @@ Definition step (s : cst) (e : event) : option cst :=
               else None
           | _ => None
           end
+      | ESchedCall base d =>
+          (* seconds = current_tt._seconds (+ secs2beats for TempoClock); seconds += delta *)
+          if lock_free p then Some (set_pend (set_pc s p) (OweAdd (secs2beats (c_map s) base + d))) else None
       end
   end.
 
@@ -240,6 +252,12 @@ Fixpoint run (s : cst) (evs : list event) : option cst :=
 
 Definition accepts (k : kind) (m : tmap) (evs : list event) : bool :=
   match run (init k m) evs with Some _ => true | None => false end.
+
+(* main._in_awake_call: while it is set, the main thread's logical time is frozen at the scheduled
+   time of the task being awakened (RtMain._update_logical_time).  In _run it is set before
+   task.__awake__ and reset in the finally clause, i.e. on EVERY exit path: in the model it is a
+   function of the program counter. *)
+Definition main_time_frozen (s : cst) : bool := in_task (c_pc s).
 
 (* The log is cut while the harness holds the main lock: the clock thread is then inside a
    wait (or has returned); anything else means the thread died in its critical section. *)
@@ -348,11 +366,27 @@ Fixpoint mon_notify (l : mpend) (n : nat) (evs : list event) : bool :=
   | _ :: r => mon_notify l n r
   end.
 
+(* sched(d) from a non-clock thread is relative to the physical present: the add that follows
+   is at secs2beats(base) + d under the tempo map in force *)
+Fixpoint mon_sched_base (m : tmap) (evs : list event) : bool :=
+  match evs with
+  | [] => true
+  | ETempo m' :: r => mon_sched_base m' r
+  | ESchedCall base d :: r =>
+      match r with
+      | EAdd t _ :: _ => Qeq_bool t (secs2beats m base + d) && mon_sched_base m r
+      | [] => true
+      | _ => false
+      end
+  | _ :: r => mon_sched_base m r
+  end.
+
 (* no_oversleep on a trace: replays [step] and checks the invariant in every state
    (diagnosis of a rejected or accepted trace; the theorem is about all executions) *)
 Definition oversleep_free (s : cst) : bool :=
   match c_pend s with
-  | NoPend =>                     (* no client is in the middle of an operation under the lock *)
+  | NoPend | OweAdd _ =>          (* no client is in the middle of an operation under the lock
+                                     (or one has only just entered sched: nothing changed yet) *)
       match c_pc s with
       | PWaitEmpty => c_notified s || match c_q s with [] => true | _ => false end
       | PSleeping d => c_notified s ||
